@@ -648,3 +648,27 @@ pub fn k_mb2hdr_find_header_small() {
     kani::assume(len <= 48);
     check_find_header(&region.0[..len]);
 }
+
+// ---- C11: the typed getters follow the spec walk to the declared length: a tag that comes AFTER an
+// inner end tag (type 0, size 8) is still "the first tag of its type in walk order"
+#[kani::proof]
+#[kani::unwind(6)]
+pub fn k_mb2hdr_get_after_inner_end() {
+    let region = AlignedBytes(kani::any::<[u8; 48]>());
+    let b = &region.0;
+    kani::assume(le32(b, 0) == SPEC_MAGIC);
+    kani::assume(le32(b, 4) == 0 || le32(b, 4) == 4);
+    kani::assume(le32(b, 8) == 48);
+    kani::assume(spec_sum_ok(le32(b, 0), le32(b, 4), le32(b, 8), le32(b, 12)));
+    // [End @16][EntryAddress (type 3, flags 0/1, size 12) @24][End @40]
+    kani::assume(le16(b, 16) == 0 && le16(b, 18) <= 1 && le32(b, 20) == 8);
+    kani::assume(le16(b, 24) == 3 && le16(b, 26) <= 1 && le32(b, 28) == 12);
+    kani::assume(le16(b, 40) == 0 && le16(b, 42) <= 1 && le32(b, 44) == 8);
+    let h = unsafe { Multiboot2Header::load(b.as_ptr().cast()) }.unwrap();
+    let t = h.entry_address_tag();
+    assert!(t.is_some());
+    let t = t.unwrap();
+    assert!(core::ptr::addr_of!(*t).cast::<u8>() as usize == b.as_ptr() as usize + 24);
+    assert!(t.entry_addr() == le32(b, 32));
+    assert!(h.address_tag().is_none());
+}
